@@ -243,6 +243,89 @@ fn one_session(ctx: &mut Ctx, source: &str, root: &str, iter: u64) -> Option<Str
             ctx.count("cheater_verdicts");
         }
     }
+    // 3b. the public even-Y helpers (`keys::EvenY`) on every type that has them: the result has even Y, is the value itself
+    // or its exact negation, and an explicit parity argument is obeyed
+    {
+        use frost_secp256k1_tr::keys::EvenY;
+        let odd = |e: &El<T>| parity_tag::<T>(e) == 1;
+        let cellp = format!("P{par_p}");
+        let mut bad = |ctx: &mut Ctx, ty: &str, what: &str| ctx.viol("even-y-helper", &format!("{ty}/{what}"), d("EvenY helper", json!({"type": ty, "what": what, "cell": cellp})));
+        // VerifyingKey
+        let vk0 = *grp.pkp.verifying_key();
+        let nvk = ident::<T>() - vk0.to_element();
+        let e = vk0.into_even_y(None);
+        if !e.has_even_y() || odd(&e.to_element()) || e.to_element() != (if par_p == 1 { nvk } else { vk0.to_element() }) || vk0.has_even_y() != (par_p == 0) {
+            bad(ctx, "VerifyingKey", "none");
+        }
+        if vk0.into_even_y(Some(true)).to_element() != vk0.to_element() || vk0.into_even_y(Some(false)).to_element() != nvk {
+            bad(ctx, "VerifyingKey", "explicit");
+        }
+        // PublicKeyPackage
+        let e = grp.pkp.clone().into_even_y(None);
+        let want_neg = par_p == 1;
+        let pk_ok = |e: &PublicKeyPackage<T>, negd: bool| {
+            e.verifying_key().to_element() == (if negd { nvk } else { vk0.to_element() })
+                && e.min_signers() == grp.pkp.min_signers()
+                && e.verifying_shares().len() == grp.pkp.verifying_shares().len()
+                && grp.pkp.verifying_shares().iter().all(|(i, v)| e.verifying_shares().get(i).map(|x| x.to_element()) == Some(if negd { ident::<T>() - v.to_element() } else { v.to_element() }))
+        };
+        if !e.has_even_y() || !pk_ok(&e, want_neg) || grp.pkp.has_even_y() != (par_p == 0) {
+            bad(ctx, "PublicKeyPackage", "none");
+        }
+        if !pk_ok(&grp.pkp.clone().into_even_y(Some(true)), false) || !pk_ok(&grp.pkp.clone().into_even_y(Some(false)), true) {
+            bad(ctx, "PublicKeyPackage", "explicit");
+        }
+        // KeyPackage
+        let kp0 = &grp.kps[&signers[0]];
+        let kp_ok = |e: &tr::keys::KeyPackage, negd: bool| {
+            e.identifier() == kp0.identifier()
+                && e.min_signers() == kp0.min_signers()
+                && e.verifying_key().to_element() == (if negd { nvk } else { vk0.to_element() })
+                && e.signing_share().to_scalar() == (if negd { neg::<T>(kp0.signing_share().to_scalar()) } else { kp0.signing_share().to_scalar() })
+                && e.verifying_share().to_element() == g::<T>() * e.signing_share().to_scalar()
+        };
+        let e = kp0.clone().into_even_y(None);
+        if !e.has_even_y() || !kp_ok(&e, want_neg) || kp0.has_even_y() != (par_p == 0) {
+            bad(ctx, "KeyPackage", "none");
+        }
+        if !kp_ok(&kp0.clone().into_even_y(Some(true)), false) || !kp_ok(&kp0.clone().into_even_y(Some(false)), true) {
+            bad(ctx, "KeyPackage", "explicit");
+        }
+        // Signature (R) and GroupCommitment
+        let r0 = *sig.R();
+        let r_odd = odd(&r0);
+        let e = sig.into_even_y(None);
+        if !e.has_even_y() || *e.R() != (if r_odd { ident::<T>() - r0 } else { r0 }) || e.z() != sig.z() || sig.has_even_y() == r_odd {
+            bad(ctx, "Signature", "none");
+        }
+        if *sig.into_even_y(Some(false)).R() != ident::<T>() - r0 || *sig.into_even_y(Some(true)).R() != r0 {
+            bad(ctx, "Signature", "explicit");
+        }
+        for el in [r0, ident::<T>() - r0] {
+            let gc = frost_core::GroupCommitment::<T>::from_element(el);
+            let o = odd(&el);
+            let e = gc.clone().into_even_y(None);
+            if !e.has_even_y() || e.clone().to_element() != (if o { ident::<T>() - el } else { el }) || gc.has_even_y() == o {
+                bad(ctx, "GroupCommitment", "none");
+            }
+            if gc.clone().into_even_y(Some(false)).to_element() != ident::<T>() - el || gc.clone().into_even_y(Some(true)).to_element() != el {
+                bad(ctx, "GroupCommitment", "explicit");
+            }
+        }
+        // SigningKey
+        let x = sc_from_be_bytes_mod::<T>(&p.bytes(40)) + one::<T>();
+        if let Ok(sk) = tr::SigningKey::from_scalar(x) {
+            let o = odd(&(g::<T>() * x));
+            let e = sk.clone().into_even_y(None);
+            if !e.has_even_y() || e.to_scalar() != (if o { neg::<T>(x) } else { x }) || sk.has_even_y() == o {
+                bad(ctx, "SigningKey", "none");
+            }
+            if sk.clone().into_even_y(Some(false)).to_scalar() != neg::<T>(x) || sk.clone().into_even_y(Some(true)).to_scalar() != x {
+                bad(ctx, "SigningKey", "explicit");
+            }
+        }
+        ctx.count("even_y_helper_checks");
+    }
     // 4. key generation outputs the key-path-only tweaked key (DKG) — C07 checks the formula; here the x-only
     // output is re-derived from the constant terms by the Python BIP-341 code through the C07 log.
     ctx.count("sessions_judged");
